@@ -11,7 +11,7 @@ Token format (all integers, space separated):
   names   := n (name_id key label_id)*
   clauses := n (hkind h m lit1..litm)*     hkind 0: int head h; 1: bool head (h = 0/1)
 Requests:
-  BREAK usememo graph ainfo keys(labeled) keys(evidence)  ->  ERR | OK graph keys keys
+  BREAK tc usememo graph ainfo keys(labeled) keys(evidence)  ->  ERR | OK graph keys keys   (tc: TRUE child short-cut also in the evidence pass)
   VBREAK graphF graphD npairs (key key)*                  ->  0 | 1
   CLARK force graph weights ads names                     ->  atomcount clausecount clauses weights ads names
   VCLARK graph ads clauses                                ->  0 | 1
@@ -82,8 +82,8 @@ let handle line =
      toks := rest;
      (match cmd with
       | "BREAK" ->
-        let um = rbool () in let g = rgraph () in let ai = rainfo () in let l = rkeys () in let e = rkeys () in
-        (match break_cycles_m um g ai l e with
+        let tc = rbool () in let um = rbool () in let g = rgraph () in let ai = rainfo () in let l = rkeys () in let e = rkeys () in
+        (match break_cycles_m tc um g ai l e with
          | None -> Buffer.add_string b "ERR"
          | Some ((d, kl), ke) -> Buffer.add_string b "OK "; wlist wnode d; wlist wkey kl; wlist wkey ke)
       | "VBREAK" ->
